@@ -31,8 +31,24 @@ CHECKS["C17"] = dict(
  note="Trusts the SimFS model of open(O_TRUNC)/unlink/write and of shutil.copy2's step order; single fault per run; no power-loss / page-cache model (the code never fsyncs); no concurrent second process.",
  design="DESIGN.md section 3.5")
 
+CHECKS["C19"] = dict(
+ script="checks/c19.py", engine="tool-world", level="exploration",
+ technique="deterministic simulation of the real eyaml-rotate-keys main() against an in-process fake eyaml peer (keyed randomised reversible cipher over the real command-line protocol) with seeded peer faults (exit non-zero, empty output, echo, wrong key)",
+ text="Seeded documents mixing plaintext with encrypted scalars (map values, list elements, Arrays-of-Hashes, anchored with aliases in maps and sequences, plain/quoted/folded/literal, whitespace inside ciphertext, near-miss strings) are rotated by the real tool in the simulated process world; on exit 0 every clause of the property is checked on the re-loaded files and on the peer's call log. Seeded search, not a proof.",
+ note="Trusts the fake peer as a model of the eyaml command-line protocol (nothing is claimed about the real hiera-eyaml gem); plaintexts are ASCII without surrounding whitespace; the set of encrypted values is computed by the check's own document walk.",
+ design="DESIGN.md section 3.6")
+
+for _pid, _title in (("C03", "set"), ("C04", "delete"), ("C09", "query/create")):
+    CHECKS[_pid] = dict(
+     script="checks/edit_session.py", args=" --property " + _pid,
+     engine="edit-session", level="exploration",
+     technique="seeded operation histories (set/create/delete/query/reopen) against the real Processor, refinement-checked step by step against a plain-data reference model, with persist/reopen cycles through the simulated file system",
+     text="Each session is one evolving document and a seeded history of 1-12 operations whose paths are drawn against the current state in a dozen path forms; after every step the full snapshot (typed data, key and list order, anchors, alias groups) must equal the reference model's prediction for that step (%s oracle), and the document must dump and strictly reload to the same data. Seeded search over histories, not a proof." % _title,
+     note="Which nodes a path matches is taken from the real read path and located through each result's parent container (C01/C02 are not claimed); documents exclude merge keys and custom tags; there is no scheduler nondeterminism in this engine, the fault dimension is limited to failed operations and the simulated FS of persist/reopen.",
+     design="DESIGN.md section 4")
+
 PENDING = {}
-for pid in ("C03", "C04", "C09", "C16", "C19"):
+for pid in ("C16",):
     if pid not in CHECKS:
         PENDING[pid] = "claimed in DESIGN.md; check under construction, listed here until its command exists"
 
